@@ -351,7 +351,7 @@ func c33Manager(r *vk.Run) {
 		r.Inconclusive("manager-create-failed")
 		return
 	}
-	n := r.Pick(18, 400)
+	n := r.Pick(16, 300)
 	rng := r.Rand("manager")
 	cases := make(chan mgrCase, n)
 	for i := 0; i < n; i++ {
